@@ -2,7 +2,10 @@
 
 use crate::CoalesceConfig;
 use hashbrown::HashMap;
+#[cfg(not(feature = "verif-hooks"))]
 use parking_lot::Mutex;
+#[cfg(feature = "verif-hooks")]
+use tower_resilience_core::verif::sync::PlMutex as Mutex;
 use std::future::Future;
 use std::hash::Hash;
 use std::marker::PhantomData;
